@@ -321,6 +321,15 @@ C14_Fails(b, v) ==
 
 C14_Nontrivial(b, v) == Applicable(v, "v2") /\ IsOk(v["v2"])
 
+(* ---- C08 (second sentence): a parsed header formats back to the text it was parsed from ---- *)
+C08_StreamFails(b, v) ==
+    LET one(e) ==
+            LET o == v[e]
+            IN  IF ~Applicable(v, e) \/ ~IsOk(o) \/ o.vw.disp.k # "ok" THEN {}
+                ELSE IF o.vw.disp.v # o.hdr THEN {<< "C08", "parsed-header-formats-to-different-text", e >>}
+                ELSE {}
+    IN  one("v1b") \cup one("v1s")
+
 (* ---- C15: v1 views reconstruct the header text ---- *)
 C15_Fails(b, v) ==
     LET one(e) ==
